@@ -416,10 +416,12 @@ def sumproduct(*args):
     # put the values into numpy vectors
     values = np.array(tuple(tuple(
         x if isinstance(x, (float, int)) and not isinstance(x, bool) else 0
-        for x in flatten(arg)) for arg in args))
+        for x in flatten(arg)) for arg in args), dtype=float)
 
-    # return the sum product
-    return np.sum(np.prod(values, axis=0))
+    # return the sum product, as a python number: a numpy integer wraps
+    # around at 2**63 and is not taken for a number by the other functions
+    result = float(np.sum(np.prod(values, axis=0)))
+    return int(result) if result.is_integer() else result
 
 
 @excel_math_func
